@@ -8,8 +8,8 @@
 (*   drain      = MsgAddAsset Graph | MsgClear                             *)
 (*              | MsgPtr{local} [pass] Notify{token}                       *)
 (*              | MsgStatic{local} [pass]                                  *)
-(*   events     = Events Event* EventsEnd [pass]      (only if ready = 1;  *)
-(*                                         the pass only in static mode)   *)
+(*   events     = Events Event* EventsEnd [pass]      (the pass only in    *)
+(*                                         static mode)                    *)
 (*   pass       = Pass{changed} (ReloadTry (ReloadOk Graph* | ReloadErr |  *)
 (*                nothing))* PassEnd                                       *)
 (*                                                                         *)
@@ -72,8 +72,9 @@ TNotify == /\ Ev("Notify") /\ phase = "notify"
            /\ phase' = "drain" /\ Adv
            /\ Same(<<g, changed, g0, c0, order, cur, ready, after, static, requested>>)
 
-(* events are taken only when the select reported the event channel *)
-TEvents == Ev("Events") /\ phase = "drain" /\ ready = 1 /\ phase' = "events" /\ Adv
+(* a batch of events is taken after the drain of the iteration (whether or not the select reported the event *)
+(* channel: nothing the properties say depends on that)                                                     *)
+TEvents == Ev("Events") /\ phase = "drain" /\ phase' = "events" /\ Adv
            /\ Same(<<g, changed, g0, c0, order, cur, ready, after, static, requested, answered>>)
 TEvent == /\ Ev("Event") /\ phase = "events"
           /\ Rec[l].known = (Rec[l].entry \in DOMAIN g)
